@@ -299,6 +299,18 @@ let dispatch (fn : string) (args : sx list) : sx =
     let c = contain g in
     L [of_list (fun e -> L [of_nat e.e_num; of_nat e.e_lineno_off]) c.c_examples; of_bool c.c_warned; of_bool c.c_propagates;
        of_opt of_px g.g_raise]
+  (* FS *)
+  | "fs", [tree; L (A op :: args)] ->
+    let to_path x = to_list to_str x in
+    let of_path p = of_list of_str p in
+    let fs = fs_of_list (to_list (function L [p; d] -> (to_path p, to_bool d) | _ -> raise (Bad "fs entry")) tree) in
+    (match op, args with
+     | "modname_to_modpath", [roots; parts] -> of_opt of_path (modname_to_modpath fs (to_list to_path roots) (to_path parts))
+     | "resolve_roots", [roots; parts] -> of_opt of_path (resolve_roots fs (to_list to_path roots) (to_path parts))
+     | "modpath_to_modname", [p] -> of_opt of_path (modpath_to_modname fs (to_path p))
+     | "split_modpath", [p] -> of_opt (of_pair of_path of_path) (split_modpath fs (to_path p))
+     | "normalize_modpath", [hi; hm; p] -> of_path (normalize_modpath fs (to_bool hi) (to_bool hm) (to_path p))
+     | _ -> raise (Bad "fs op"))
   | _ -> raise (Bad ("unknown function " ^ fn))
 
 
